@@ -48,6 +48,7 @@ impl Display for CfgNode {
                 .functions()
                 .iter()
                 .map(|func| func.name().to_string())
+                .sorted()
                 .join(" | "),
         };
 
